@@ -68,7 +68,9 @@ Definition spec_prv_ok (s : start) (path : list Z) (ob : res onode) : bool :=
   match derive_prv C hmac512 hash160 x0 path, ob with
   | Some x, Ok ob =>
       in_range &&
-      beq_bytes (unhex (o_key ob)) (ser256 (x_k x)) && beq_bytes (unhex (o_chain ob)) (x_c x)
+      (* a derived child carries the full 32-byte key; the start node itself (empty path) is returned as stored (32 or 33 bytes) *)
+      (match path with [] => be2z (unhex (o_key ob)) =? x_k x | _ => beq_bytes (unhex (o_key ob)) (ser256 (x_k x)) end)
+      && beq_bytes (unhex (o_chain ob)) (x_c x)
       && (o_depth ob =? x_depth x) && (o_index ob =? x_idx x)
       && (match path with [] => true | _ => beq_bytes (unhex (o_pfpr ob)) (x_fpr x) end)
       && (match path, o_xprv ob with
